@@ -79,7 +79,16 @@ void EpollLoop::runLoop(Mode mode)
 
         for (int i = 0; i < fds; ++i) {
             epoll_event &ev = events.at(i);
-            EpollFdEvent::OnEventCallback(ev.events, ev.data.ptr);
+            //! 前面的回调可能已经销毁了该fd上的所有事件，其共享数据已被回收甚至被别的fd复用，
+            //! 所以必须按fd重新查找，而不能使用内核返回的旧指针
+            auto it = fd_data_map_.find(ev.data.fd);
+            if (it == fd_data_map_.end())
+                continue;
+
+            EpollFdSharedData *fd_shared_data = it->second;
+            ++fd_shared_data->ref;  //! 回调期间保持共享数据有效
+            EpollFdEvent::OnEventCallback(ev.events, fd_shared_data);
+            unrefFdSharedData(ev.data.fd);
         }
 
         //handleRunInLoopFunc();
@@ -114,7 +123,7 @@ EpollFdSharedData* EpollLoop::refFdSharedData(int fd)
 
         ::memset(&fd_shared_data->ev, 0, sizeof(fd_shared_data->ev));
         fd_shared_data->fd = fd;
-        fd_shared_data->ev.data.ptr = static_cast<void *>(fd_shared_data);
+        fd_shared_data->ev.data.fd = fd;
 
         fd_data_map_.insert(std::make_pair(fd, fd_shared_data));
     }
